@@ -23,14 +23,3 @@ impl Gt {
 pub broadcast axiom fn axiom_gt_range(p: Gt) ensures inr(#[trigger] p.dl());
 pub broadcast axiom fn axiom_gt_inj(a: Gt, b: Gt) ensures (#[trigger] a.dl() == #[trigger] b.dl()) ==> a == b;
 
-/// sum over the list of dl(a_i) * dl(b_i) in Z_r — the discrete-log form of a product of pairings
-pub open spec fn pair_sum(s: Seq<(Sig, Pk)>) -> int
-    decreases s.len()
-{
-    if s.len() == 0 { 0 } else { fadd(pair_sum(s.drop_last()), fmul(s.last().0.dl(), s.last().1.dl())) }
-}
-
-/// hash-to-curve into the signature group (uninterpreted; one function per (message, tag))
-pub uninterp spec fn hp(m: Seq<u8>, dst: Seq<u8>) -> Sig;
-/// hash-to-scalar (HKDF based, see G?IMPL units)
-pub uninterp spec fn hs(m: Seq<u8>, salt: Seq<u8>) -> Scalar;
